@@ -68,6 +68,21 @@ def cases(tier, rng):
                            ("ctw", ["rr"], ("seq", [("gate", "con", [("q", "rr", 1)])]))]
             p["body"] = [("gate", "prepare_all", []), ("gate", "chi", [("num", idx)]), ("gate", "ctw", [("id", regarg)]), ("gate", "measure_all", [])]
             out.insert(0, (p, "nested-arg", "j"))
+    # a parameter named like the REGISTER, in a macro that also uses an alias of that register: alias fill-in must not
+    # produce a reference that the parameter captures (it may refuse)
+    for arg in (0, 2):
+        p = dict(hdr)
+        p["macros"] = [("mq", ["q"], ("seq", [("gate", "X", [("q", "a", 0)]), ("gate", "H", [("id", "q")])]))]
+        p["body"] = [("gate", "prepare_all", []), ("gate", "mq", [("q", "a", arg)]), ("gate", "measure_all", [])]
+        out.insert(0, (p, "register-named-parameter", "q"))
+    # the callee's bindings end with the call: a parameter name shared by caller and callee means the caller's binding
+    # again in the statements that follow the nested call
+    for a, b in ((0, 2), (3, 1)):
+        p = dict(hdr)
+        p["macros"] = [("nfl", ["t"], ("seq", [("gate", "X", [("id", "t")])])),
+                       ("nbo", ["t", "u"], ("seq", [("gate", "nfl", [("id", "u")]), ("gate", "H", [("id", "t")]), ("gate", "nfl", [("id", "t")])]))]
+        p["body"] = [("gate", "prepare_all", []), ("gate", "nbo", [("q", "q", a), ("q", "q", b)]), ("gate", "measure_all", [])]
+        out.insert(0, (p, "after-nested-call", "t"))
     for p, use, pname in out:
         text = ref.to_text(p)
         yield text, {"prog": p, "text": text}, pname != "z"
@@ -101,6 +116,14 @@ def check(pl):
             e = expand_macros(c)
             stages.append(("expand_macros", e, ov))
             stages.append(("fill_in_let+expand_macros", expand_macros(f), {}))
+            try:
+                from jaqalpaq.core.algorithm.fill_in_map import fill_in_map
+                from jaqalpaq.generator import generate_jaqal_program
+                mfill = fill_in_map(f)
+                stages.append(("fill_in_let+fill_in_map", mfill, {}))
+                stages.append(("fill_in_let+fill_in_map, generated and re-parsed", parse_native(generate_jaqal_program(mfill)), {}))
+            except JaqalError:
+                pass        # alias fill-in may refuse a circuit (documented: aliases as macro arguments, hidden registers)
         except JaqalError as ex:
             if valid:
                 return f"valid program (overrides {ov}) rejected: {ex}"
